@@ -91,4 +91,154 @@ def handlers(emit, repo):
         except Exception as exc:
             emit({"e": "Batch", "crashed": True, "etype": type(exc).__name__, "keys": [], "msgs": [], "hasres": []})
 
-    return {"revdfs": job_revdfs, "malformed": job_malformed}
+    FIELDS = ("n_states", "n_transitions", "n_iterations_reach", "n_iterations_rew",
+              "reachability_strategies", "final_strategies", "rewards", "rew_min_reach",
+              "probabilities", "prob_min_rew")
+
+    def dg(v):
+        import hashlib
+        return hashlib.sha256(repr(v).encode()).hexdigest()[:24]
+
+    def solo(tad, desc, prune):
+        """One game alone on a fresh deep copy; the entry run_games would build for it."""
+        import copy
+        d = copy.deepcopy(desc)
+        try:
+            sg = tad.StochasticGame(prune_states=prune, **d)
+            entry = {"n_states": sg.num_states, "n_transitions": sg.count_transitions()}
+            fs, rs, rew, prob, it1, it2, a1, a2 = sg.solve()
+        except ValueError as exc:
+            return {"ok": False, "err": str(exc)[:400], "fields": []}
+        entry.update({"n_iterations_reach": it1, "n_iterations_rew": it2, "reachability_strategies": rs,
+                      "final_strategies": fs, "rewards": rew, "rew_min_reach": a2, "probabilities": prob,
+                      "prob_min_rew": a1})
+        return {"ok": True, "err": "", "fields": [dg(entry[f]) for f in FIELDS]}
+
+    def write_input(path, names, descs, style):
+        with open(path, "w") as f:
+            if style == 0:      # the generator's style: str(dict) with line breaks
+                f.write("# Board:\n#\n#   [0|<>( )]\n\n{\n")
+                for i, (n, d) in enumerate(zip(names, descs)):
+                    f.write(" %r: " % n)
+                    f.write(str(d).replace("[[", "[\n[").replace("], ", "],\n"))
+                    f.write(",\n" if i < len(names) - 1 else "\n}\n")
+            else:               # hand-written style: comments, one field per line, trailing commas
+                f.write("# hand-made input\n{\n")
+                for n, d in zip(names, descs):
+                    f.write("    # game %s\n    %r: {\n" % (n, n))
+                    for k in ("rewards", "players", "transition_list", "final_states"):
+                        f.write("        %r: %r,  # %s\n" % (k, d[k], k))
+                    f.write("    },\n")
+                f.write("}\n")
+
+    def parse_report(path):
+        blocks, cur = [], None
+        with open(path) as f:
+            for line in f.read().split("\n"):
+                if line == "=" * 160:
+                    cur = []
+                    blocks.append(cur)
+                elif line and cur is not None:
+                    label, _, text = line.partition(": ")
+                    cur.append({"label": label.rstrip(), "text": text})
+        return blocks
+
+    def listing(root):
+        out = []
+        for d, _, files in os.walk(root):
+            for fn in files:
+                out.append(os.path.relpath(os.path.join(d, fn), root))
+        return sorted(out)
+
+    def job_batch(job):
+        import copy
+        import logging
+        import shutil
+        import subprocess
+        import tempfile
+        tad = _fresh("tad")
+        cr = _fresh("conditionalrewards")
+        logging.disable(logging.CRITICAL)
+        names = job["names"]
+        descs = [{k: decode(tg[k]) for k in ("rewards", "players", "transition_list", "final_states")}
+                 for tg in job["tgs"]]
+        solos = [{"pr": solo(tad, d, True), "un": solo(tad, d, False)} for d in descs]
+        scratch = tempfile.mkdtemp(prefix="verif_batch_")
+        cwd = os.getcwd()
+        try:
+            os.makedirs(os.path.join(scratch, "inputs"))
+            os.makedirs(os.path.join(scratch, "outputs"))
+            rel = "inputs/%s.py" % job["file"]
+            write_input(os.path.join(scratch, rel), names, descs, job.get("style", 0))
+            os.chdir(scratch)
+            # the reader
+            try:
+                read = cr.read_dict_from_file(rel)
+                rb = {"error": "", "keys": [str(k) for k in read.keys()],
+                      "digests": [dg(read[k]) for k in read.keys()]}
+            except Exception as exc:
+                read = None
+                rb = {"error": type(exc).__name__, "keys": [], "digests": []}
+            written = [dg(d) for d in descs]
+            # the batch run (on what the reader returned, as main() does)
+            games = read if isinstance(read, dict) else {n: copy.deepcopy(d) for n, d in zip(names, descs)}
+            try:
+                results = cr.run_games(games)
+                entries = []
+                for key, e in results.items():
+                    text = {k: str(v) for k, v in e.items()}
+                    text["name"] = str(key)
+                    entries.append({"key": str(key), "msg": str(e.get("msg")),
+                                    "none": e.get("final_strategies") is None,
+                                    "fields": [dg(e.get(f)) for f in FIELDS], "text": text})
+                out = {"crashed": False, "etype": "", "entries": entries}
+            except Exception as exc:
+                results = None
+                out = {"crashed": True, "etype": type(exc).__name__, "entries": []}
+            # the report
+            report = {"error": "", "files": [], "blocks": []}
+            cli = {"rc": 0, "files": [], "diff": []}
+            if results is not None:
+                before = set(listing(scratch))
+                try:
+                    cr.save_results_to_file(results, rel)
+                    new = sorted(set(listing(scratch)) - before)
+                    report["files"] = new
+                    api_path = os.path.join(scratch, "outputs", job["file"] + ".txt")
+                    report["blocks"] = parse_report(api_path) if os.path.exists(api_path) else []
+                except Exception as exc:
+                    report["error"] = type(exc).__name__
+                # the command line, in a second scratch directory
+                scratch2 = tempfile.mkdtemp(prefix="verif_cli_")
+                try:
+                    os.makedirs(os.path.join(scratch2, "inputs"))
+                    os.makedirs(os.path.join(scratch2, "outputs"))
+                    shutil.copy(os.path.join(scratch, rel), os.path.join(scratch2, rel))
+                    before2 = set(listing(scratch2))
+                    p = subprocess.run([sys.executable, os.path.join(repo, "conditionalrewards.py"), "-f", rel, "-s"],
+                                       cwd=scratch2, stdout=subprocess.DEVNULL, stderr=subprocess.DEVNULL,
+                                       timeout=120, env=dict(os.environ, PYTHONDONTWRITEBYTECODE="1"))
+                    cli["rc"] = p.returncode
+                    cli["files"] = sorted(set(listing(scratch2)) - before2)
+                    cpath = os.path.join(scratch2, "outputs", job["file"] + ".txt")
+                    cblocks = parse_report(cpath) if os.path.exists(cpath) else []
+                    diff = []
+                    if len(cblocks) != len(report["blocks"]):
+                        diff.append("block count")
+                    else:
+                        for b, (x, y) in enumerate(zip(cblocks, report["blocks"])):
+                            for lx, ly in zip(x, y):
+                                if lx["label"] != "Total time" and lx != ly:
+                                    diff.append("block %d %s" % (b + 1, lx["label"]))
+                            if len(x) != len(y):
+                                diff.append("block %d length" % (b + 1))
+                    cli["diff"] = diff[:20]
+                finally:
+                    shutil.rmtree(scratch2, ignore_errors=True)
+            emit({"e": "Batch", "solos": solos, "out": out, "report": report, "readback": rb,
+                  "written": written, "cli": cli})
+        finally:
+            os.chdir(cwd)
+            shutil.rmtree(scratch, ignore_errors=True)
+
+    return {"revdfs": job_revdfs, "malformed": job_malformed, "batch": job_batch}
